@@ -95,20 +95,38 @@ def headers(text):
 
 
 def with_oracle(chk, texts):
-    """cases for clparse with the date oracle's answers attached (asked from time.Parse directly)"""
-    dres = chk.run_model([("cldates", [t]) for t in texts])
-    wanted = []
-    for r in dres:
-        wanted.append([bytes.fromhex(h[1:]) for h in r.split() if h.startswith("x")])
-    distinct = sorted({w for ws in wanted for w in ws})
-    ans = dict(zip(distinct, chk.run_impl([("tparse", [w]) for w in distinct])))
-    mcases = []
-    for t, ws in zip(texts, wanted):
-        args = [t]
-        for w in dict.fromkeys(ws):
-            args += [w, ans[w].encode()]
-        mcases.append(("clparse", args))
-    return mcases, ans
+    """cases for the changelog model.  The trailer date used to be an oracle (time.Parse asked through the harness and the
+    answers attached to every case); since DATE.v the model computes it itself (op clparse1), and time.Parse is compared
+    with that model in a stream of its own (rand_when)."""
+    return [("clparse1", [t]) for t in texts], {}
+
+
+def rand_when(rng):
+    """a trailer date: well-formed (one- or two-digit day, optional fraction, any case of the names), at the edges of every
+    range (day 0 / 32, hour 24, minute / second 60, offsets up to 24:60 and beyond, leap days, year 0000 and 9999), and with
+    one or two byte edits"""
+    y = rng.choice([0, 1, 1969, 1970, 1999, 2000, 2004, 2023, 2024, 2100, 9999, rng.randrange(10000)]); mo = rng.randrange(1, 13)
+    d = rng.choice([0, 1, 2, 9, 10, 28, 29, 30, 31, 32, rng.randrange(1, 32)])
+    h = rng.choice([0, 5, 9, 10, 23, 24, rng.randrange(25)]); mi = rng.choice([0, 59, 60, rng.randrange(61)]); sec = rng.choice([0, 59, 60, rng.randrange(61)])
+    zh = rng.choice([0, 1, 5, 12, 14, 23, 24, 25, rng.randrange(26)]); zm = rng.choice([0, 30, 45, 59, 60, 61])
+    dd = rng.choice(["%02d" % d, "%d" % d, " %d" % d]); hh = rng.choice(["%02d" % h, "%d" % h])
+    frac = rng.choice(["", "", "", ".5", ",25", ".123456789", ".1234567890123", ".", " .5"])
+    t = "%s, %s %s %04d %s:%02d:%02d%s %s%02d%02d" % (rng.choice(DAYS), dd, rng.choice(MONTHS) if rng.random() < 0.1 else MONTHS[mo - 1], y, hh, mi, sec, frac,
+                                                   rng.choice("+-+-+- "), zh, zm)
+    r = rng.random()
+    if r < 0.15:
+        t = t.swapcase() if rng.random() < 0.5 else t.lower()
+    b = bytearray(t.encode())
+    if r > 0.6:
+        for _ in range(rng.choice([1, 1, 2])):
+            k = rng.randrange(len(b) + 1); op = rng.randrange(3)
+            if op == 0 and b:
+                b[k % len(b)] = rng.choice(b" ,:+-0123456789AaMmJjZ.\t\n")
+            elif op == 1 and b:
+                del b[k % len(b)]
+            else:
+                b.insert(k, rng.choice(b" ,:+-0123456789aM."))
+    return bytes(b)
 
 
 def count_entries(res):
@@ -190,7 +208,14 @@ def run(chk):
                 chk.violate({"kind": "property", "case": lib.show_case(("clsrc", [variant, c[1][1][:300] + (b"...<%d bytes>" % len(c[1][1]) if len(c[1][1]) > 300 else b"")])),
                              "impl": r[:600], "plain_reader": w[:600],
                              "explanation": "the same changelog read through a source that delivers its bytes in other chunks (%s) gives other entries (or a shortened list)" % variant.decode()})
-    # the date oracle itself against Python's RFC 2822 parser (supporting evidence about the oracle)
+    # the trailer date: time.Parse with the library's layout against its model DATE.parse_when (instant and zone offset, or
+    # refusal), on the dates of the generated changelogs and on a stream of edge and mutated dates
+    dc = [("tparse", [e["date"]]) for es, _ in docs for e in es][:chk.n(3000, 30000)]
+    dc += [("tparse", [rand_when(rng)]) for _ in range(chk.n(20000, 400000))]
+    di, dm = chk.run_both(dc)
+    chk.compare("trailer-dates", dc, di, dm)
+    ans = {c[1][0]: r for c, r in zip(dc, di)}
+    # ... and against Python's RFC 2822 parser (supporting evidence)
     bad = 0
     for w, a in list(ans.items())[:2000]:
         try:
@@ -253,7 +278,7 @@ def run(chk):
         if i.startswith("ok") and count_entries(i) < headers(t):
             chk.violate({"kind": "property", "case": lib.show_case(("clparse", [t])), "impl": i[:1500], "header_lines": headers(t),
                          "explanation": "fewer entries than header lines were returned without an error"})
-    chk.assumptions += ["time.Parse (layout: RFC1123Z with a one- or two-digit day) and version.Parse are oracles of the model; the tie asks the real time.Parse directly and uses the C03 model for versions",
+    chk.assumptions += ["the trailer date is computed by the model (DATE.parse_when, a model of time.Parse with the layout RFC1123Z with a one- or two-digit day) and compared with time.Parse asked directly; version.Parse is the C03 model",
                         "the options map is compared sorted by key (last duplicate wins)"]
 
 
